@@ -47,8 +47,23 @@ pub struct MatCase {
 
 #[derive(Clone, Debug, PartialEq, Serialize, Deserialize)]
 pub enum Case {
-    Direct { mat: MatCase, tol: Option<u64>, faults: Vec<Fault> },
-    Sample { spec: GraphSpec, point: Vec<u64>, ed: EdgeData, tol: Option<u64>, meta: bool, faults: Vec<Fault> },
+    Direct {
+        mat: MatCase,
+        tol: Option<u64>,
+        faults: Vec<Fault>,
+        #[serde(default)]
+        debug: bool,
+    },
+    Sample {
+        spec: GraphSpec,
+        point: Vec<u64>,
+        ed: EdgeData,
+        tol: Option<u64>,
+        meta: bool,
+        faults: Vec<Fault>,
+        #[serde(default)]
+        debug: bool,
+    },
 }
 
 #[derive(Clone, Debug)]
@@ -80,16 +95,21 @@ fn raw(m: &SquareMatrix<SimF>) -> Vec<u64> {
 }
 
 /// one decomposition under the seam; returns outcome, trace, fired faults
-pub fn decompose(
+pub fn decompose(m: &MatCase, tol: Option<u64>, faults: &[Fault], trace: bool) -> (DecOutcome, ctx::OpStats) {
+    decompose_dbg(m, tol, faults, trace, false)
+}
+
+pub fn decompose_dbg(
     m: &MatCase,
     tol: Option<u64>,
     faults: &[Fault],
     trace: bool,
+    debug: bool,
 ) -> (DecOutcome, ctx::OpStats) {
     let sm = mat_of(m);
     let settings = TropicalSamplingSettings {
         matrix_stability_test: tol.map(f64::from_bits),
-        print_debug_info: false,
+        print_debug_info: debug,
         return_metadata: false,
     };
     ctx::begin_op(faults.to_vec(), trace, u64::MAX);
@@ -323,8 +343,8 @@ pub struct CaseResult {
 
 pub fn run_case(case: &Case) -> CaseResult {
     match case {
-        Case::Direct { mat, tol, faults } => {
-            let (o, st) = decompose(mat, *tol, faults, false);
+        Case::Direct { mat, tol, faults, debug } => {
+            let (o, st) = decompose_dbg(mat, *tol, faults, false, *debug);
             let (violations, outcome) = match &o {
                 DecOutcome::Ok(d) => (judge_ok(d, &mat.entries, mat.dim, *tol, faults.is_empty()), "ok"),
                 DecOutcome::Err(e) => (vec![], if e.contains("ZeroDet") { "zerodet" } else { "unstable" }),
@@ -332,13 +352,13 @@ pub fn run_case(case: &Case) -> CaseResult {
             };
             CaseResult { violations, outcome, fired: st.fired }
         }
-        Case::Sample { spec, point, ed, tol, meta, faults } => {
+        Case::Sample { spec, point, ed, tol, meta, faults, debug } => {
             hashkeys::reset(0x5a);
             let s = match sampler::build(spec) {
                 Built::Ok(s) => s,
                 _ => return CaseResult { violations: vec![], outcome: "unbuildable", fired: vec![] },
             };
-            let (o, st) = sample_with(&*s, point, ed, *tol, *meta, faults, false);
+            let (o, st) = sample_with_dbg(&*s, point, ed, *tol, *meta, faults, false, *debug);
             let (violations, outcome) = judge_sample(&o, spec, *tol, faults.is_empty());
             CaseResult { violations, outcome, fired: st.fired }
         }
@@ -354,7 +374,21 @@ pub fn sample_with(
     faults: &[Fault],
     trace: bool,
 ) -> (Outcome, ctx::OpStats) {
-    let st = Settings { stab: tol, debug: false, meta };
+    sample_with_dbg(s, point, ed, tol, meta, faults, trace, false)
+}
+
+#[allow(clippy::too_many_arguments)]
+pub fn sample_with_dbg(
+    s: &dyn Sampler,
+    point: &[u64],
+    ed: &EdgeData,
+    tol: Option<u64>,
+    meta: bool,
+    faults: &[Fault],
+    trace: bool,
+    debug: bool,
+) -> (Outcome, ctx::OpStats) {
+    let st = Settings { stab: tol, debug, meta };
     ctx::begin_op(faults.to_vec(), trace, u64::MAX);
     let o = s.sample_x(point, ed, &st);
     let stats = ctx::end_op();
@@ -442,7 +476,7 @@ pub fn full_class(case: &Case, base: &str) -> String {
 
 fn case_key(case: &Case, class: &str) -> String {
     match case {
-        Case::Direct { mat, tol, faults } => format!(
+        Case::Direct { mat, tol, faults, .. } => format!(
             "C16:direct:{}:dim={}:mat={:016x}:tol={}:faults={}",
             class,
             mat.dim,
@@ -551,7 +585,10 @@ impl C16 {
             }
             // fault-free: every tolerance
             for t in &tols {
-                cases.push(Case::Direct { mat: mat.clone(), tol: *t, faults: vec![] });
+                cases.push(Case::Direct { mat: mat.clone(), tol: *t, faults: vec![], debug: false });
+                if rng.chance(1, 4) {
+                    cases.push(Case::Direct { mat: mat.clone(), tol: *t, faults: vec![], debug: true });
+                }
             }
             // faults: reference traces with and without the test
             let (_, st_none) = decompose(&mat, None, &[], true);
@@ -577,7 +614,7 @@ impl C16 {
                 if exhaustive {
                     for &k in &allowed {
                         for fk in FAULT_KINDS {
-                            cases.push(Case::Direct { mat: mat.clone(), tol: *t, faults: vec![Fault { at: k, kind: *fk }] });
+                            cases.push(Case::Direct { mat: mat.clone(), tol: *t, faults: vec![Fault { at: k, kind: *fk }], debug: false });
                         }
                     }
                 } else {
@@ -592,7 +629,7 @@ impl C16 {
                                 fs.sort_by_key(|f| f.at);
                             }
                         }
-                        cases.push(Case::Direct { mat: mat.clone(), tol: *t, faults: fs });
+                        cases.push(Case::Direct { mat: mat.clone(), tol: *t, faults: fs, debug: false });
                     }
                 }
             }
@@ -629,7 +666,7 @@ impl C16 {
                 ];
                 for t in &tols {
                     for meta in [true, false] {
-                        cases.push(Case::Sample { spec: spec.clone(), point: point.clone(), ed: ed.clone(), tol: *t, meta, faults: vec![] });
+                        cases.push(Case::Sample { spec: spec.clone(), point: point.clone(), ed: ed.clone(), tol: *t, meta, faults: vec![], debug: rng.chance(1, 4) });
                     }
                 }
                 // faults before the first detector event
@@ -653,6 +690,7 @@ impl C16 {
                                 tol: tt,
                                 meta: true,
                                 faults: vec![Fault { at: k, kind: *rng.pick(FAULT_KINDS) }],
+                                debug: false,
                             });
                         }
                     }
@@ -751,7 +789,7 @@ impl Property for C16 {
             }
         }
         // a smaller matrix: leading principal submatrices (fault-free cases only)
-        if let Case::Direct { mat, tol, faults } = &case {
+        if let Case::Direct { mat, tol, faults, .. } = &case {
             if faults.is_empty() {
                 for n in 1..mat.dim {
                     let mut e = Vec::new();
@@ -760,7 +798,7 @@ impl Property for C16 {
                             e.push(mat.entries[i * mat.dim + j]);
                         }
                     }
-                    let c = Case::Direct { mat: MatCase { dim: n, entries: e, class: mat.class.clone() }, tol: *tol, faults: vec![] };
+                    let c = Case::Direct { mat: MatCase { dim: n, entries: e, class: mat.class.clone() }, tol: *tol, faults: vec![], debug: false };
                     if fails(&c) {
                         case = c;
                         break;
